@@ -201,6 +201,104 @@ theorem not_same_of_differs (T : Table) (hT : T.RegE) {k : Kind} {v w : Val} (h 
   rw [differs_sound T hT h] at h1
   cases h1
 
+/-! ## `Differs` is complete: whatever `rel` separates is a `Differs` -/
+
+theorem leafExcept_false_of_not_leaf_num (k : Kind) (v w : Val) (h : (v.isNum = false ∧ v.isNoneNil = false) ∨
+    (w.isNum = false ∧ w.isNoneNil = false)) : leafExcept k v w = false := by
+  unfold leafExcept
+  rcases h with ⟨h1, h2⟩ | ⟨h1, h2⟩ <;> simp [h1, h2]
+
+theorem differs_of_rel_false_aux (T : Table) (hT : T.RegE) (v : Val) :
+    (∀ k w, k.regE = true → rel T v k w = false → Differs T k v w)
+      ∧ (∀ x ∈ elems v, ∀ k w, k.regE = true → rel T x k w = false → Differs T k x w) := by
+  have leafCase : ∀ v : Val, v.isLeaf = true → ∀ k w, k.regE = true → rel T v k w = false → Differs T k v w := by
+    intro v hl k w hk h
+    have hs : k ≠ .skip := by rintro rfl; simp [rel] at h
+    have hne : v ≠ w := by
+      rintro rfl
+      rw [rel_leaf_refl T k v hk hl] at h; cases h
+    by_cases hex : leafExcept k v w = false
+    · exact .leaf hk hs (Or.inl hl) hne hex
+    · simp only [leafExcept, Bool.or_eq_false_iff, Bool.and_eq_false_iff, not_and, Bool.not_eq_false] at hex
+      cases v <;> simp [Val.isLeaf] at hl <;> cases w <;> cases k <;>
+        simp_all [rel, Kind.regE, Val.isNum, Val.isNoneNil]
+      all_goals exact .real h
+  induction v with
+  | none => exact ⟨leafCase _ rfl, by simp [elems]⟩
+  | nil => exact ⟨leafCase _ rfl, by simp [elems]⟩
+  | str s => exact ⟨leafCase _ rfl, by simp [elems]⟩
+  | num a =>
+    refine ⟨fun k w hk h => ?_, by simp [elems]⟩
+    by_cases hr : k = .r10
+    · subst hr
+      cases w with
+      | num b => simp only [rel, beq_eq_false_iff_ne, ne_eq] at h; exact .real h
+      | _ => exact leafCase _ rfl _ _ hk h
+    · exact leafCase _ rfl _ _ hk h
+  | obj c f ihf =>
+    refine ⟨fun k w hk h => ?_, by simp [elems]⟩
+    have ihf1 := ihf.1
+    clear ihf
+    have hs : k ≠ .skip := by rintro rfl; simp [rel] at h
+    cases w with
+    | obj c' f' =>
+      rw [rel_obj_obj T _ _ _ _ k (Kind.regE_reg hk) hs] at h
+      by_cases hc : c = c'
+      · subst hc
+        simp only [beq_self_eq_true, Bool.true_and] at h
+        exact .attrs hk hs (ihf1 _ _ (by rw [hT.whole]; rfl) h)
+      · exact .cls hk hs hc
+    | cons a b => exact .shapeOC hk hs
+    | none => exact .leaf hk hs (Or.inr rfl) (by simp) (leafExcept_false_of_not_leaf_num _ _ _ (Or.inl ⟨rfl, rfl⟩))
+    | nil => exact .leaf hk hs (Or.inr rfl) (by simp) (leafExcept_false_of_not_leaf_num _ _ _ (Or.inl ⟨rfl, rfl⟩))
+    | num r => exact .leaf hk hs (Or.inr rfl) (by simp) (leafExcept_false_of_not_leaf_num _ _ _ (Or.inl ⟨rfl, rfl⟩))
+    | str s => exact .leaf hk hs (Or.inr rfl) (by simp) (leafExcept_false_of_not_leaf_num _ _ _ (Or.inl ⟨rfl, rfl⟩))
+  | cons a b iha ihb =>
+    have hel : ∀ x ∈ a :: elems b, ∀ k w, k.regE = true → rel T x k w = false → Differs T k x w := by
+      intro x hx
+      rcases List.mem_cons.mp hx with rfl | hx
+      · exact iha.1
+      · exact ihb.2 x hx
+    have iha1 := iha.1
+    have ihb1 := ihb.1
+    clear iha ihb
+    refine ⟨fun k w hk hr => ?_, hel⟩
+    have hs : k ≠ .skip := by rintro rfl; simp [rel] at hr
+    cases w with
+    | obj c f => exact .shapeCO hk hs
+    | none => exact .leaf hk hs (Or.inr rfl) (by simp) (leafExcept_false_of_not_leaf_num _ _ _ (Or.inl ⟨rfl, rfl⟩))
+    | nil => exact .leaf hk hs (Or.inr rfl) (by simp) (leafExcept_false_of_not_leaf_num _ _ _ (Or.inl ⟨rfl, rfl⟩))
+    | num r => exact .leaf hk hs (Or.inr rfl) (by simp) (leafExcept_false_of_not_leaf_num _ _ _ (Or.inl ⟨rfl, rfl⟩))
+    | str s => exact .leaf hk hs (Or.inr rfl) (by simp) (leafExcept_false_of_not_leaf_num _ _ _ (Or.inl ⟨rfl, rfl⟩))
+    | cons a' b' =>
+      rcases Kind.regE_cases T k hk with rfl | ⟨kh, kt, hsp⟩ | ⟨ke, hse⟩
+      · exact absurd rfl hs
+      · rw [rel_split T _ _ _ hsp] at hr
+        have hreg := Kind.split_regE hT hk hsp
+        cases h1 : rel T a kh a' with
+        | false => exact .head hsp (iha1 _ _ hreg.1 h1)
+        | true =>
+          rw [h1, Bool.true_and] at hr
+          exact .tail hsp (ihb1 _ _ hreg.2 hr)
+      · rw [rel_setElem T _ _ hse] at hr
+        have hke := Kind.setElem_regE hk hse
+        simp only [setRel, Bool.and_eq_false_iff, List.all_eq_false, List.any_eq_true, not_exists, not_and,
+          Bool.not_eq_true] at hr
+        rcases hr with ⟨x, hx, hxf⟩ | ⟨y, hy, hyf⟩
+        · exact .memL hse hx (fun y hy => hel x hx ke y hke (hxf y hy))
+        · exact .memR hse hy (fun x hx => hel x hx ke y hke (hyf x hx))
+
+/-- `rel` is false exactly on the `Differs` pairs -/
+theorem rel_false_iff_differs (T : Table) (hT : T.RegE) (k : Kind) (hk : k.regE = true) (v w : Val) :
+    rel T v k w = false ↔ Differs T k v w :=
+  ⟨(differs_of_rel_false_aux T hT v).1 k w hk, differs_sound T hT⟩
+
+/-- … hence `Differs` is exactly the negation of `Same` -/
+theorem differs_iff_not_same (T : Table) (hT : T.RegE) (k : Kind) (hk : k.regE = true) (v w : Val) :
+    Differs T k v w ↔ ¬ Same T k v w := by
+  rw [← rel_false_iff_differs T hT k hk, ← rel_iff_same T hT k hk]
+  cases rel T v k w <;> simp
+
 /-! ## reordering the members of sets, anywhere and any number of them -/
 
 /-- `SetPerm T k v w`: `w` is `v` with the member lists of set-read chains reordered / repeated — at any nesting depth
